@@ -189,6 +189,9 @@ def gen_desc(r, cfg, depth=0, top=True):
         if cfg.allow_constraints and r.random() < 0.4:
             lo = r.choice([0, 1, 2])
             d['con'] = {'size': [lo, lo + r.choice([0, 1, 3])]}
+            if r.random() < 0.35:
+                # the same SIZE declared through the documented legacy keyword, on a derived type
+                d['con_api'] = r.choice(['sizeSpec-subtype', 'sizeSpec-clone', 'sizeSpec-init'])
     else:
         d = gen_choice(r, cfg, depth)
     if cfg.allow_tags and r.random() < 0.3:
@@ -392,7 +395,14 @@ def gen_scale(r):
         el = leaf()
         if el['k'] == 'NULL':
             el = D('INTEGER')
+        if r.random() < 0.3:
+            # hundreds of untagged CHOICE elements whose alternative is constructed
+            el = D('CHOICE', alts=[['c', D('SEQ', fields=[{'n': 'a', 'd': D('INTEGER'), 'opt': 'R'}])],
+                                   ['d', D('OCTETSTRING')], ['e', tagged(D('SEQOF', of=D('BOOLEAN')), 'I', 'C', 1)]])
         pool = [_gen_value(r, el, ValCfg(small=True)) for _ in range(4)]
+        if el['k'] == 'CHOICE':
+            n = r.choice([300, 520, 1025])
+            pool = [['c', {'a': r.choice([0, 1, 300])}], ['e', [True, False]], ['c', {'a': -1}], ['d', '00']]
         return D(r.choice(['SEQOF', 'SETOF']), of=el), [r.choice(pool) for _ in range(n)]
     if kind == 'many-alts':
         n = r.choice([17, 32, 33, 64, 65])
@@ -689,9 +699,16 @@ def build_schema(desc):
     elif k == 'CHOICE':
         kw['componentType'] = p.namedtype.NamedTypes(
             *[p.namedtype.NamedType(n, build_schema(a)) for n, a in desc['alts']])
-    if con is not None:
+    api = desc.get('con_api')
+    if con is not None and not api:
         kw['subtypeSpec'] = con
+    elif con is not None and api == 'sizeSpec-init':
+        kw['sizeSpec'] = con
     obj = cls(**kw)
+    if con is not None and api == 'sizeSpec-subtype':
+        obj = obj.subtype(sizeSpec=con)
+    elif con is not None and api == 'sizeSpec-clone':
+        obj = obj.clone(sizeSpec=con)
     if (desc.get('con') or {}).get('refine_values') is not None:
         obj = obj.subtype(subtypeSpec=p.constraint.SingleValueConstraint(*desc['con']['refine_values']))
     for mode, c, number in desc.get('tags') or ():
@@ -727,7 +744,7 @@ def prim_arg(desc, v):
     """Constructor argument for a primitive pyvalue."""
     k = desc['k']
     if k == 'OCTETSTRING' and isinstance(v, dict):
-        return bytes.fromhex(v['rep']) * v['n']        # compact notation for very long values
+        return bytes.fromhex(v['rep']) * v['n'] + bytes.fromhex(v.get('tail', ''))     # compact notation for very long values
     if k == 'OCTETSTRING' or k == 'ANY':
         return bytes.fromhex(v)
     if k == 'BITSTRING':
@@ -951,12 +968,16 @@ def absval_canon_coarse(o, digits=12):
         _REAL_DIGITS[0] = old
 
 
+def _canon_key(x):
+    return repr(jsonable(x))       # jsonable() prints very long ints in hexadecimal: repr() of them would raise
+
+
 def _canon(a):
     if isinstance(a, tuple):
         if len(a) == 3 and a[0] == 'SetOf' and isinstance(a[2], tuple):
-            return (a[0], a[1], tuple(sorted((_canon(x) for x in a[2]), key=repr)))
+            return (a[0], a[1], tuple(sorted((_canon(x) for x in a[2]), key=_canon_key)))
         if len(a) == 4 and a[3] == 'dynamic-set' and isinstance(a[2], tuple):
-            return (a[0], a[1], tuple(sorted((_canon(x) for x in a[2]), key=repr)), a[3])
+            return (a[0], a[1], tuple(sorted((_canon(x) for x in a[2]), key=_canon_key)), a[3])
         if len(a) == 3 and a[0] == 'Real' and isinstance(a[2], tuple) and len(a[2]) == 3:
             return (a[0], a[1], _canon_real(a[2]))
         return tuple(_canon(x) for x in a)
@@ -974,6 +995,8 @@ def _canon_real(t):
         return t
     if m == 0:
         return (0, 10, 0)
+    if abs(m).bit_length() > 10000:
+        return (m, b, e)        # beyond CPython's int-to-decimal limit: compared exactly
     if b == 10:
         # character-form REALs live as Python floats inside the library: 15 significant
         # decimal digits are what a double guarantees to carry through repr()/float()
